@@ -54,8 +54,20 @@ def end_of_iteration(ctx, rid, nx):
     """Every `raise StopIteration` of the v1 hasher is the exhaustion of the last file (empty read and no next file)."""
     # zero read -> next file or stop, inside a loop
     g = C.cfg_of(nx)
-    rds = [n for n in own_nodes(nx.node) if isinstance(n, ast.Assign) and isinstance(n.value, ast.Call) and isinstance(n.value.func, ast.Attribute) and n.value.func.attr == "readinto"
-           and isinstance(n.targets[0], ast.Name)]
+    def reads(call, depth=0):
+        """x.readinto(buf), or a method of the class that returns the count of such a read"""
+        if isinstance(call.func, ast.Attribute) and call.func.attr == "readinto":
+            return True
+        if depth < 2:
+            for h in C.targets_of(ctx, nx, call):
+                if h.cls is not None and nx.cls is not None and h is not nx:
+                    rv = [r.value for r in own_nodes(h.node) if isinstance(r, ast.Return) and r.value is not None]
+                    inner = [a for a in own_nodes(h.node) if isinstance(a, ast.Assign) and isinstance(a.value, ast.Call) and isinstance(a.value.func, ast.Attribute)
+                             and a.value.func.attr == "readinto" and isinstance(a.targets[0], ast.Name)]
+                    if len(inner) == 1 and rv and all(isinstance(v, ast.Name) and v.id == inner[0].targets[0].id for v in rv):
+                        return True
+        return False
+    rds = [n for n in own_nodes(nx.node) if isinstance(n, ast.Assign) and isinstance(n.value, ast.Call) and isinstance(n.targets[0], ast.Name) and reads(n.value)]
     SZ = rds[0].targets[0].id if rds else "size"
     raises = [n for n in own_nodes(nx.node) if isinstance(n, ast.Raise) and "StopIteration" in norm(n.exc)]
     ok = bool(raises)
@@ -143,6 +155,9 @@ def end_of_iteration(ctx, rid, nx):
     return SZ
 
 
+_depth = [0]
+
+
 def _listing_part(ctx, fn, rd, d):
     """(the call filelist_total(self.path), index) if definition d binds element `index` of that call's result:
     a, b = call   |   x = call; b = x[1] / x.<second field of the NamedTuple the call returns>   else None."""
@@ -173,6 +188,25 @@ def _listing_part(ctx, fn, rd, d):
     if isinstance(v, tuple) and v[0] == "unpack":
         if is_listing(v[1]):
             return v[1], v[2]
+        # a, b, c = self._scan(): a method that lists the content and hands the parts of the listing on in a tuple
+        if isinstance(v[1], ast.Call) and _depth[0] < 2:
+            tg = [t for t in C.targets_of(ctx, fn, v[1]) if t.cls is not None]
+            if len(tg) == 1:
+                M = tg[0]
+                rets = [r for r in own_nodes(M.node) if isinstance(r, ast.Return) and r.value is not None]
+                if len(rets) == 1 and isinstance(rets[0].value, ast.Tuple) and v[2] is not None and v[2] < len(rets[0].value.elts) and isinstance(rets[0].value.elts[v[2]], ast.Name):
+                    gm = C.cfg_of(M)
+                    rdm = ReachDefs(M, gm)
+                    ds = rdm.reaching(rets[0].value.elts[v[2]].id, C.stmt_node(ctx, M, rets[0]))
+                    if len(ds) == 1:
+                        _depth[0] += 1
+                        try:
+                            inner = _listing_part(ctx, M, rdm, next(iter(ds)))
+                        finally:
+                            _depth[0] -= 1
+                        if inner is not None:
+                            # the listing call sits in the helper; one call of the helper = one listing
+                            return v[1], inner[1]
         # a, b = x.f0, x.f1   handled by the reaching-definition machinery as plain assigns; nothing to do here
         return None
     if d.kind != "assign" or v is None or isinstance(v, tuple):
@@ -560,7 +594,17 @@ def v1_hasher(ctx):
             a = vals[0] if len(vals) == 1 else a
         ok = norm(a) == "self.paths[self.index]"
         on = C.stmt_node(ctx, nf, o)
-        guarded = any(C.test_expr(b) is not None and norm(C.test_expr(b)) == "self.index < len(self.paths)" and lab == "true" for b, lab in gnf.control_deps(on))
+        def past_the_end(x):
+            """the file index has run past the list"""
+            if isinstance(x, ast.Compare) and len(x.ops) == 1:
+                l, r, op = norm(x.left), norm(x.comparators[0]), type(x.ops[0])
+                if (l, r) == ("len(self.paths)", "self.index"):
+                    l, r, op = r, l, {ast.Lt: ast.Gt, ast.Gt: ast.Lt, ast.LtE: ast.GtE, ast.GtE: ast.LtE}.get(op, op)
+                if (l, r) == ("self.index", "len(self.paths)"):
+                    return {ast.Lt: False, ast.GtE: True, ast.NotEq: False, ast.Eq: True, ast.Gt: None, ast.LtE: None}.get(op)
+            return None
+        # the open is out of reach once the index has run past the list (whichever way the bound test is written)
+        guarded = on is not None and on not in C.reach_under(gnf, gnf.entry, past_the_end)
         listed = isinstance(a, ast.Subscript) and norm(a.value) == "self.paths"
         if not listed:
             # the next file is not taken from self.paths by index (an iterator over the list, a queue ...): which file is
